@@ -126,144 +126,149 @@ func ruleC09(c *Ctx) []*report.Result {
 			// the method is read with the straight-line helpers of its own
 			// receiver type in place (a shared or extracted helper is not a
 			// different route)
-			fl := flatten(fn, func(g *ssa.Function) bool {
+			paths := flattenPaths(fn, func(g *ssa.Function) bool {
 				return c.P.InModule(g) && recvNamed(g) == impl.tname && !a.layer[g] && !returnsRestorer(g) && g.Name() != "restore"
 			})
-			calls, straight := fl.calls, fl.straight
-			if !straight {
-				r.Fail(construct+" / single path", pos, "method is expected to be straight-line code", nil, "")
+			if paths == nil {
+				r.Fail(construct+" / single path", pos, "method is expected to be loop-free code with a handful of paths", nil, "")
 				continue
 			}
-			param := ssa.Value(fn.Params[1])
-			// classify calls
-			var writes []writerCall
-			var setModes []ssa.CallInstruction
-			var starts []ssa.CallInstruction
-			for _, ci := range calls {
-				n := calleeName(ci)
-				f := ci.Common().StaticCallee()
-				switch {
-				case f != nil && strings.HasSuffix(n, ".SetMode") && recvNamed(f) == tBuffer:
-					if _, isDefer := ci.(*ssa.Defer); !isDefer {
-						setModes = append(setModes, ci)
-					}
-				case f != nil && returnsRestorer(f):
-					starts = append(starts, ci)
-				case f != nil && ((a.layer[f] && a.writers[f]) || (recvNamed(f) == tPP && !returnsRestorer(f) && c.reachesWriter(f))):
-					wc := writerCall{call: ci, callee: n}
-					for _, arg := range fl.args(ci)[1:] {
-						if s, ok := constArgString(arg); ok {
-							wc.consts = append(wc.consts, s)
-						} else if wc.payload == nil {
-							wc.payload = arg
-						}
-					}
-					writes = append(writes, wc)
-				case f != nil && (n == "internal/rfmt.Fprintf" || n == "internal/rfmt.Fprint"):
-					wc := writerCall{call: ci, callee: n}
-					args := fl.args(ci)
-					if s, ok := constArgString(args[1]); ok {
-						wc.consts = append(wc.consts, s)
-					}
-					wc.payload = singleVariadicElem(args[len(args)-1])
-					writes = append(writes, wc)
-				case f != nil && strings.HasSuffix(n, ".restore"):
-				case isBuiltinCall(ci, "len"):
-				default:
-					// helper calls that cannot write are irrelevant; a second
-					// route into the writer layer is not
-					if f != nil && c.P.InModule(f) && c.reachesWriter(f) {
-						if _, isDefer := ci.(*ssa.Defer); !isDefer {
+			// every path through the method is held to the contract
+			for _, fl := range paths {
+				func() {
+					calls := fl.calls
+					param := ssa.Value(fn.Params[1])
+					// classify calls
+					var writes []writerCall
+					var setModes []ssa.CallInstruction
+					var starts []ssa.CallInstruction
+					for _, ci := range calls {
+						n := calleeName(ci)
+						f := ci.Common().StaticCallee()
+						switch {
+						case f != nil && strings.HasSuffix(n, ".SetMode") && recvNamed(f) == tBuffer:
+							if _, isDefer := ci.(*ssa.Defer); !isDefer {
+								setModes = append(setModes, ci)
+							}
+						case f != nil && returnsRestorer(f):
+							starts = append(starts, ci)
+						case f != nil && ((a.layer[f] && a.writers[f]) || (recvNamed(f) == tPP && !returnsRestorer(f) && c.reachesWriter(f))):
 							wc := writerCall{call: ci, callee: n}
-							for _, arg := range fl.args(ci) {
-								if _, ok := constArgString(arg); !ok && wc.payload == nil && arg != ssa.Value(fn.Params[0]) {
+							for _, arg := range fl.args(ci)[1:] {
+								if s, ok := constArgString(arg); ok {
+									wc.consts = append(wc.consts, s)
+								} else if wc.payload == nil {
 									wc.payload = arg
 								}
 							}
 							writes = append(writes, wc)
+						case f != nil && (n == "internal/rfmt.Fprintf" || n == "internal/rfmt.Fprint"):
+							wc := writerCall{call: ci, callee: n}
+							args := fl.args(ci)
+							if s, ok := constArgString(args[1]); ok {
+								wc.consts = append(wc.consts, s)
+							}
+							wc.payload = singleVariadicElem(args[len(args)-1])
+							writes = append(writes, wc)
+						case f != nil && strings.HasSuffix(n, ".restore"):
+						case isBuiltinCall(ci, "len"):
+						default:
+							// helper calls that cannot write are irrelevant; a second
+							// route into the writer layer is not
+							if f != nil && c.P.InModule(f) && c.reachesWriter(f) {
+								if _, isDefer := ci.(*ssa.Defer); !isDefer {
+									wc := writerCall{call: ci, callee: n}
+									for _, arg := range fl.args(ci) {
+										if _, ok := constArgString(arg); !ok && wc.payload == nil && arg != ssa.Value(fn.Params[0]) {
+											wc.payload = arg
+										}
+									}
+									writes = append(writes, wc)
+								}
+							}
 						}
 					}
-				}
-			}
-			if len(writes) != 1 {
-				r.Fail(construct+" / exactly one write", pos, fmt.Sprintf("%d buffer writes on the path, want exactly one (the payload must land once)", len(writes)), nil, "")
-				continue
-			}
-			w := writes[0]
-			r.Check(w.payload != nil && fl.deep(w.payload) == param, construct+" / payload is the parameter", pos, "the value written is not the method's parameter")
-			if impl.pkg == "builder" {
-				// the mode in force at the write, for every entry mode of the
-				// builder (A-fmt write events), must be the mode of the side
-				wantMode := map[string]string{"safe": "SafeEscaped", "unsafe": "UnsafeEscaped"}[sp.side]
-				evs := evByFn[fn]
-				if strings.HasSuffix(w.callee, ".Fprintf") || strings.HasSuffix(w.callee, ".Fprint") || (len(evs) == 0 && len(fl.inlined) > 0) {
-					// the write happens inside rfmt.Fprint*, shared by several
-					// emitters: decide from the mode set before the call, in
-					// this function or in a one-line helper it calls
-					mode := int64(-1)
-					for _, ci := range calls {
-						if ci == w.call {
-							break
+					if len(writes) != 1 {
+						r.Fail(construct+" / exactly one write", pos, fmt.Sprintf("%d buffer writes on the path, want exactly one (the payload must land once)", len(writes)), nil, "")
+						return
+					}
+					w := writes[0]
+					r.Check(w.payload != nil && fl.deep(w.payload) == param, construct+" / payload is the parameter", pos, "the value written is not the method's parameter")
+					if impl.pkg == "builder" {
+						// the mode in force at the write, for every entry mode of the
+						// builder (A-fmt write events), must be the mode of the side
+						wantMode := map[string]string{"safe": "SafeEscaped", "unsafe": "UnsafeEscaped"}[sp.side]
+						evs := evByFn[fn]
+						if strings.HasSuffix(w.callee, ".Fprintf") || strings.HasSuffix(w.callee, ".Fprint") || (len(evs) == 0 && len(fl.inlined) > 0) {
+							// the write happens inside rfmt.Fprint*, shared by several
+							// emitters: decide from the mode set before the call, in
+							// this function or in a one-line helper it calls
+							mode := int64(-1)
+							for _, ci := range calls {
+								if ci == w.call {
+									break
+								}
+								if m, ok := modeSetByArgs(ci, fl.args(ci)); ok {
+									mode = m
+								}
+							}
+							okMode := (sp.side == "safe" && mode == 1) || (sp.side == "unsafe" && mode == 0)
+							r.Check(okMode, construct+" / mode of its side", pos, "the builder must switch to "+wantMode+" before formatting through "+w.callee)
+							r.Ok(construct + " side=" + sp.side + " via " + w.callee)
+							if len(w.consts) > 0 {
+								if numeric[sp.name] == nil {
+									numeric[sp.name] = map[string][]string{}
+								}
+								numeric[sp.name][impl.pkg] = append([]string{w.callee}, w.consts...)
+							}
+							return
 						}
-						if m, ok := modeSetByArgs(ci, fl.args(ci)); ok {
-							mode = m
+						if len(evs) == 0 {
+							r.Fail(construct+" / reached", pos, "no write event of this method was reached by the analysis", nil, "")
+						}
+						for _, e := range evs {
+							if e.mode == wantMode {
+								r.Ok(construct + " writes in " + e.mode)
+							} else {
+								r.Fail(construct+" / mode of its side", e.pos, "a "+sp.side+"-side payload is written by the builder in mode "+e.mode+" (want "+wantMode+")", e.e.Chain, e.cfg())
+							}
+						}
+						_ = setModes
+					} else {
+						r.Check(len(starts) == 1 && fl.before(starts[0], w.call), construct+" / classification bracket", pos, "the printer must bracket the write with exactly one start*/restore pair")
+						// configurations from A-fmt
+						evs := evByFn[fn]
+						if f := w.call.Common().StaticCallee(); f != nil && recvNamed(f) == tPP {
+							// written through a leaf formatter of the printer: its own
+							// write events are checked by C02.a/C05.c in every configuration
+							r.Ok(construct + " writes through " + w.callee)
+						} else if len(evs) == 0 {
+							r.Fail(construct+" / reached", pos, "no write event of this method was reached by the analysis", nil, "")
+						}
+						for _, e := range evs {
+							ok := false
+							switch sp.side {
+							case "safe":
+								ok = (e.mode == "SafeEscaped" && e.override == "safe") || (e.mode == "UnsafeEscaped" && e.override == "unsafe")
+							case "unsafe":
+								ok = (e.mode == "UnsafeEscaped" && e.override != "safe") || (e.mode == "SafeEscaped" && e.override == "safe")
+							}
+							if ok {
+								r.Ok(construct + " [" + e.cfg() + "]")
+							} else {
+								r.Fail(construct+" / wrong side", e.pos, "a "+sp.side+"-side payload is written with ["+e.cfg()+"]", e.e.Chain, e.cfg())
+							}
 						}
 					}
-					okMode := (sp.side == "safe" && mode == 1) || (sp.side == "unsafe" && mode == 0)
-					r.Check(okMode, construct+" / mode of its side", pos, "the builder must switch to "+wantMode+" before formatting through "+w.callee)
-					r.Ok(construct + " side=" + sp.side + " via " + w.callee)
 					if len(w.consts) > 0 {
 						if numeric[sp.name] == nil {
 							numeric[sp.name] = map[string][]string{}
 						}
 						numeric[sp.name][impl.pkg] = append([]string{w.callee}, w.consts...)
 					}
-					continue
-				}
-				if len(evs) == 0 {
-					r.Fail(construct+" / reached", pos, "no write event of this method was reached by the analysis", nil, "")
-				}
-				for _, e := range evs {
-					if e.mode == wantMode {
-						r.Ok(construct + " writes in " + e.mode)
-					} else {
-						r.Fail(construct+" / mode of its side", e.pos, "a "+sp.side+"-side payload is written by the builder in mode "+e.mode+" (want "+wantMode+")", e.e.Chain, e.cfg())
-					}
-				}
-				_ = setModes
-			} else {
-				r.Check(len(starts) == 1 && fl.before(starts[0], w.call), construct+" / classification bracket", pos, "the printer must bracket the write with exactly one start*/restore pair")
-				// configurations from A-fmt
-				evs := evByFn[fn]
-				if f := w.call.Common().StaticCallee(); f != nil && recvNamed(f) == tPP {
-					// written through a leaf formatter of the printer: its own
-					// write events are checked by C02.a/C05.c in every configuration
-					r.Ok(construct + " writes through " + w.callee)
-				} else if len(evs) == 0 {
-					r.Fail(construct+" / reached", pos, "no write event of this method was reached by the analysis", nil, "")
-				}
-				for _, e := range evs {
-					ok := false
-					switch sp.side {
-					case "safe":
-						ok = (e.mode == "SafeEscaped" && e.override == "safe") || (e.mode == "UnsafeEscaped" && e.override == "unsafe")
-					case "unsafe":
-						ok = (e.mode == "UnsafeEscaped" && e.override != "safe") || (e.mode == "SafeEscaped" && e.override == "safe")
-					}
-					if ok {
-						r.Ok(construct + " [" + e.cfg() + "]")
-					} else {
-						r.Fail(construct+" / wrong side", e.pos, "a "+sp.side+"-side payload is written with ["+e.cfg()+"]", e.e.Chain, e.cfg())
-					}
-				}
+					r.Ok(construct + " side=" + sp.side + " via " + w.callee)
+				}()
 			}
-			if len(w.consts) > 0 {
-				if numeric[sp.name] == nil {
-					numeric[sp.name] = map[string][]string{}
-				}
-				numeric[sp.name][impl.pkg] = append([]string{w.callee}, w.consts...)
-			}
-			r.Ok(construct + " side=" + sp.side + " via " + w.callee)
 		}
 	}
 	// sibling agreement for the numeric emitters
